@@ -1,87 +1,379 @@
-//! Verification shim for `serde_json`: a heap-free `Value` and a token-tape "wire".
-//! `to_string` records what the real `Serialize` impl emits; `from_str` replays it.
+//! Verification shim for `serde_json`.
+//!
+//! * `Value` is a heap-free scalar: `Null | Bool | Number(i64)` (nested values are outside the claim).
+//! * The "wire" is a token tape instead of JSON text: `to_string` records every call the *real*
+//!   (derived) `Serialize` impl makes - struct field names included - and `from_str` replays the
+//!   tape through the *real* (derived) `Deserialize` impl. What is thereby checked is the pair of
+//!   derives (field names, `skip_serializing_if`, `default`, `transparent`), not JSON syntax.
+//!   The returned `String` is empty; the tape is the most recent one written (`verif::TAPE`), which
+//!   is what a client that presents the cookie unmodified sends back.
+use serde::de::{self, DeserializeSeed, MapAccess, Visitor};
 use serde::ser::{self, Serialize};
 
 #[derive(Clone, Copy, Debug, PartialEq, Eq)]
-pub enum Value { Null, Bool(bool), Number(i64) }
-impl Default for Value { fn default() -> Self { Value::Null } }
+pub enum Value {
+    Null,
+    Bool(bool),
+    Number(i64),
+}
+impl Default for Value {
+    fn default() -> Self {
+        Value::Null
+    }
+}
 impl Serialize for Value {
     fn serialize<S: ser::Serializer>(&self, s: S) -> std::result::Result<S::Ok, S::Error> {
-        match self { Value::Null => s.serialize_unit(), Value::Bool(b) => s.serialize_bool(*b), Value::Number(n) => s.serialize_i64(*n) }
+        match self {
+            Value::Null => s.serialize_unit(),
+            Value::Bool(b) => s.serialize_bool(*b),
+            Value::Number(n) => s.serialize_i64(*n),
+        }
     }
 }
 impl<'de> serde::Deserialize<'de> for Value {
-    fn deserialize<D: serde::Deserializer<'de>>(_d: D) -> std::result::Result<Self, D::Error> { Err(serde::de::Error::custom("unsupported")) }
+    fn deserialize<D: serde::Deserializer<'de>>(d: D) -> std::result::Result<Self, D::Error> {
+        struct V;
+        impl<'de> Visitor<'de> for V {
+            type Value = Value;
+            fn expecting(&self, f: &mut std::fmt::Formatter) -> std::fmt::Result {
+                f.write_str("a scalar")
+            }
+            fn visit_unit<E>(self) -> std::result::Result<Value, E> {
+                Ok(Value::Null)
+            }
+            fn visit_bool<E>(self, b: bool) -> std::result::Result<Value, E> {
+                Ok(Value::Bool(b))
+            }
+            fn visit_i64<E>(self, n: i64) -> std::result::Result<Value, E> {
+                Ok(Value::Number(n))
+            }
+        }
+        d.deserialize_any(V)
+    }
 }
+
 #[derive(Debug)]
-pub struct Error { pub code: u8 }
+pub struct Error {
+    pub code: u8,
+}
 const ERR: Error = Error { code: 0 };
-impl std::fmt::Display for Error { fn fmt(&self, f: &mut std::fmt::Formatter<'_>) -> std::fmt::Result { f.write_str("json error") } }
+impl std::fmt::Display for Error {
+    fn fmt(&self, f: &mut std::fmt::Formatter<'_>) -> std::fmt::Result {
+        f.write_str("json error")
+    }
+}
 impl std::error::Error for Error {}
-impl ser::Error for Error { fn custom<T: std::fmt::Display>(_m: T) -> Self { ERR } }
-impl serde::de::Error for Error { fn custom<T: std::fmt::Display>(_m: T) -> Self { ERR } }
+impl ser::Error for Error {
+    fn custom<T: std::fmt::Display>(_m: T) -> Self {
+        ERR
+    }
+}
+impl de::Error for Error {
+    fn custom<T: std::fmt::Display>(_m: T) -> Self {
+        ERR
+    }
+}
 pub type Result<T> = std::result::Result<T, Error>;
 
-pub fn to_value<T: Serialize>(_t: T) -> Result<Value> { Err(ERR) }
-pub fn from_value<T: serde::de::DeserializeOwned>(_v: Value) -> Result<T> { Err(ERR) }
+/// Typed (de)serialisation of single values is outside the claim (raw API only).
+pub fn to_value<T: Serialize>(_t: T) -> Result<Value> {
+    Err(ERR)
+}
+pub fn from_value<T: de::DeserializeOwned>(_v: Value) -> Result<T> {
+    Err(ERR)
+}
 
 pub mod verif {
     use super::Value;
-    pub const MAXE: usize = 3;
-    #[derive(Clone, Copy, Debug)]
-    pub struct Wire { pub id: Option<u128>, pub n: usize, pub keys: [[u8; 2]; MAXE], pub klen: [usize; MAXE], pub vals: [Value; MAXE] }
-    pub static mut LAST: Wire = Wire { id: None, n: 0, keys: [[0; 2]; MAXE], klen: [0; MAXE], vals: [Value::Null; MAXE] };
-    pub fn last() -> Wire { unsafe { LAST } }
+    pub const MAXT: usize = 12;
+    #[derive(Clone, Copy, Debug, PartialEq, Eq)]
+    pub enum Tok {
+        End,
+        StructStart,
+        Field(&'static str),
+        StructEnd,
+        U128(u128),
+        MapStart,
+        /// a map key: up to 2 bytes + real length
+        Key([u8; 2], usize),
+        Scalar(Value),
+        MapEnd,
+    }
+    #[derive(Clone, Copy)]
+    pub struct Tape {
+        pub toks: [Tok; MAXT],
+        pub n: usize,
+        pub pos: usize,
+        pub overflow: bool,
+    }
+    pub const EMPTY_TAPE: Tape = Tape { toks: [Tok::End; MAXT], n: 0, pos: 0, overflow: false };
+    pub static mut TAPE: Tape = EMPTY_TAPE;
+    pub fn tape() -> Tape {
+        unsafe { TAPE }
+    }
+    pub fn set_tape(t: Tape) {
+        unsafe { TAPE = t }
+    }
+    pub(crate) fn push(t: Tok) {
+        unsafe {
+            if TAPE.n >= MAXT {
+                TAPE.overflow = true;
+            } else {
+                let i = TAPE.n;
+                TAPE.toks[i] = t;
+                TAPE.n = i + 1;
+            }
+        }
+    }
+    pub(crate) fn peek() -> Tok {
+        unsafe { if TAPE.pos < TAPE.n { TAPE.toks[TAPE.pos] } else { Tok::End } }
+    }
+    pub(crate) fn next() -> Tok {
+        unsafe {
+            if TAPE.pos < TAPE.n {
+                let t = TAPE.toks[TAPE.pos];
+                TAPE.pos += 1;
+                t
+            } else {
+                Tok::End
+            }
+        }
+    }
 }
+use verif::Tok;
 
-struct Rec { pending_key: bool }
+struct Rec {
+    pending_key: bool,
+}
 macro_rules! unsup { ($($f:ident($($t:ty),*);)*) => { $(fn $f(self $(, _: $t)*) -> Result<()> { Err(ERR) })* } }
 impl<'a> ser::Serializer for &'a mut Rec {
-    type Ok = (); type Error = Error;
-    type SerializeSeq = ser::Impossible<(), Error>; type SerializeTuple = ser::Impossible<(), Error>;
-    type SerializeTupleStruct = ser::Impossible<(), Error>; type SerializeTupleVariant = ser::Impossible<(), Error>;
-    type SerializeMap = Self; type SerializeStruct = Self; type SerializeStructVariant = ser::Impossible<(), Error>;
-    fn serialize_bool(self, v: bool) -> Result<()> { unsafe { let w = &mut verif::LAST; if w.n == 0 { return Err(ERR); } w.vals[w.n - 1] = Value::Bool(v); } Ok(()) }
-    fn serialize_i64(self, v: i64) -> Result<()> { unsafe { let w = &mut verif::LAST; if w.n == 0 { return Err(ERR); } w.vals[w.n - 1] = Value::Number(v); } Ok(()) }
-    fn serialize_unit(self) -> Result<()> { unsafe { let w = &mut verif::LAST; if w.n == 0 { return Err(ERR); } w.vals[w.n - 1] = Value::Null; } Ok(()) }
-    fn serialize_u128(self, v: u128) -> Result<()> { unsafe { verif::LAST.id = Some(v); } Ok(()) }
+    type Ok = ();
+    type Error = Error;
+    type SerializeSeq = ser::Impossible<(), Error>;
+    type SerializeTuple = ser::Impossible<(), Error>;
+    type SerializeTupleStruct = ser::Impossible<(), Error>;
+    type SerializeTupleVariant = ser::Impossible<(), Error>;
+    type SerializeMap = Self;
+    type SerializeStruct = Self;
+    type SerializeStructVariant = ser::Impossible<(), Error>;
+    fn serialize_bool(self, v: bool) -> Result<()> {
+        verif::push(Tok::Scalar(Value::Bool(v)));
+        Ok(())
+    }
+    fn serialize_i64(self, v: i64) -> Result<()> {
+        verif::push(Tok::Scalar(Value::Number(v)));
+        Ok(())
+    }
+    fn serialize_unit(self) -> Result<()> {
+        verif::push(Tok::Scalar(Value::Null));
+        Ok(())
+    }
+    fn serialize_u128(self, v: u128) -> Result<()> {
+        verif::push(Tok::U128(v));
+        Ok(())
+    }
     fn serialize_str(self, v: &str) -> Result<()> {
-        if !self.pending_key { return Err(ERR); }
-        unsafe { let w = &mut verif::LAST; if w.n >= verif::MAXE { return Err(ERR); }
-            let b = v.as_bytes(); let l = if b.len() > 2 { 2 } else { b.len() };
-            let mut i = 0; while i < l { w.keys[w.n][i] = b[i]; i += 1; }
-            w.klen[w.n] = b.len(); w.n += 1; }
+        if !self.pending_key {
+            return Err(ERR);
+        }
+        let b = v.as_bytes();
+        let mut k = [0u8; 2];
+        if b.len() > 0 {
+            k[0] = b[0];
+        }
+        if b.len() > 1 {
+            k[1] = b[1];
+        }
+        verif::push(Tok::Key(k, b.len()));
         Ok(())
     }
     unsup! { serialize_i8(i8); serialize_i16(i16); serialize_i32(i32); serialize_u8(u8); serialize_u16(u16); serialize_u32(u32); serialize_u64(u64); serialize_f32(f32); serialize_f64(f64); serialize_char(char); serialize_bytes(&[u8]); serialize_none(); serialize_unit_struct(&'static str); }
-    fn serialize_some<T: ?Sized + Serialize>(self, v: &T) -> Result<()> { v.serialize(self) }
-    fn serialize_unit_variant(self, _: &'static str, _: u32, _: &'static str) -> Result<()> { Err(ERR) }
-    fn serialize_newtype_struct<T: ?Sized + Serialize>(self, _: &'static str, v: &T) -> Result<()> { v.serialize(self) }
-    fn serialize_newtype_variant<T: ?Sized + Serialize>(self, _: &'static str, _: u32, _: &'static str, _: &T) -> Result<()> { Err(ERR) }
-    fn serialize_seq(self, _: Option<usize>) -> Result<Self::SerializeSeq> { Err(ERR) }
-    fn serialize_tuple(self, _: usize) -> Result<Self::SerializeTuple> { Err(ERR) }
-    fn serialize_tuple_struct(self, _: &'static str, _: usize) -> Result<Self::SerializeTupleStruct> { Err(ERR) }
-    fn serialize_tuple_variant(self, _: &'static str, _: u32, _: &'static str, _: usize) -> Result<Self::SerializeTupleVariant> { Err(ERR) }
-    fn serialize_map(self, _: Option<usize>) -> Result<Self::SerializeMap> { Ok(self) }
-    fn serialize_struct(self, _: &'static str, _: usize) -> Result<Self::SerializeStruct> { Ok(self) }
-    fn serialize_struct_variant(self, _: &'static str, _: u32, _: &'static str, _: usize) -> Result<Self::SerializeStructVariant> { Err(ERR) }
-    fn is_human_readable(&self) -> bool { false }
+    fn serialize_some<T: ?Sized + Serialize>(self, v: &T) -> Result<()> {
+        v.serialize(self)
+    }
+    fn serialize_unit_variant(self, _: &'static str, _: u32, _: &'static str) -> Result<()> {
+        Err(ERR)
+    }
+    fn serialize_newtype_struct<T: ?Sized + Serialize>(self, _: &'static str, v: &T) -> Result<()> {
+        v.serialize(self)
+    }
+    fn serialize_newtype_variant<T: ?Sized + Serialize>(self, _: &'static str, _: u32, _: &'static str, _: &T) -> Result<()> {
+        Err(ERR)
+    }
+    fn serialize_seq(self, _: Option<usize>) -> Result<Self::SerializeSeq> {
+        Err(ERR)
+    }
+    fn serialize_tuple(self, _: usize) -> Result<Self::SerializeTuple> {
+        Err(ERR)
+    }
+    fn serialize_tuple_struct(self, _: &'static str, _: usize) -> Result<Self::SerializeTupleStruct> {
+        Err(ERR)
+    }
+    fn serialize_tuple_variant(self, _: &'static str, _: u32, _: &'static str, _: usize) -> Result<Self::SerializeTupleVariant> {
+        Err(ERR)
+    }
+    fn serialize_map(self, _: Option<usize>) -> Result<Self::SerializeMap> {
+        verif::push(Tok::MapStart);
+        Ok(self)
+    }
+    fn serialize_struct(self, _: &'static str, _: usize) -> Result<Self::SerializeStruct> {
+        verif::push(Tok::StructStart);
+        Ok(self)
+    }
+    fn serialize_struct_variant(self, _: &'static str, _: u32, _: &'static str, _: usize) -> Result<Self::SerializeStructVariant> {
+        Err(ERR)
+    }
+    fn is_human_readable(&self) -> bool {
+        true
+    }
 }
 impl<'a> ser::SerializeMap for &'a mut Rec {
-    type Ok = (); type Error = Error;
-    fn serialize_key<T: ?Sized + Serialize>(&mut self, k: &T) -> Result<()> { self.pending_key = true; let r = k.serialize(&mut **self); self.pending_key = false; r }
-    fn serialize_value<T: ?Sized + Serialize>(&mut self, v: &T) -> Result<()> { v.serialize(&mut **self) }
-    fn end(self) -> Result<()> { Ok(()) }
+    type Ok = ();
+    type Error = Error;
+    fn serialize_key<T: ?Sized + Serialize>(&mut self, k: &T) -> Result<()> {
+        self.pending_key = true;
+        let r = k.serialize(&mut **self);
+        self.pending_key = false;
+        r
+    }
+    fn serialize_value<T: ?Sized + Serialize>(&mut self, v: &T) -> Result<()> {
+        v.serialize(&mut **self)
+    }
+    fn end(self) -> Result<()> {
+        verif::push(Tok::MapEnd);
+        Ok(())
+    }
 }
 impl<'a> ser::SerializeStruct for &'a mut Rec {
-    type Ok = (); type Error = Error;
-    fn serialize_field<T: ?Sized + Serialize>(&mut self, _k: &'static str, v: &T) -> Result<()> { v.serialize(&mut **self) }
-    fn end(self) -> Result<()> { Ok(()) }
+    type Ok = ();
+    type Error = Error;
+    fn serialize_field<T: ?Sized + Serialize>(&mut self, k: &'static str, v: &T) -> Result<()> {
+        verif::push(Tok::Field(k));
+        v.serialize(&mut **self)
+    }
+    fn end(self) -> Result<()> {
+        verif::push(Tok::StructEnd);
+        Ok(())
+    }
 }
+
 pub fn to_string<T: ?Sized + Serialize>(v: &T) -> Result<String> {
-    unsafe { verif::LAST.id = None; verif::LAST.n = 0; }
+    verif::set_tape(verif::EMPTY_TAPE);
     let mut r = Rec { pending_key: false };
     v.serialize(&mut r)?;
+    if verif::tape().overflow {
+        return Err(ERR);
+    }
     Ok(String::new())
 }
-pub fn from_str<'a, T: serde::Deserialize<'a>>(_s: &'a str) -> Result<T> { Err(ERR) }
+
+// ------------------------------------------------------------------------------------------------
+// Replay
+// ------------------------------------------------------------------------------------------------
+struct Play;
+struct StructAcc;
+struct MapAcc;
+struct FieldName(&'static str);
+struct KeyBytes([u8; 2], usize);
+
+static KEYS: [&str; 4] = ["a", "b", "c", "d"];
+
+macro_rules! fwd_any { ($($f:ident)*) => { $(fn $f<V: Visitor<'de>>(self, v: V) -> Result<V::Value> { self.deserialize_any(v) })* } }
+
+impl<'de> de::Deserializer<'de> for Play {
+    type Error = Error;
+    fn deserialize_any<V: Visitor<'de>>(self, v: V) -> Result<V::Value> {
+        match verif::next() {
+            Tok::StructStart => v.visit_map(StructAcc),
+            Tok::MapStart => v.visit_map(MapAcc),
+            Tok::U128(x) => v.visit_u128(x),
+            Tok::Scalar(Value::Null) => v.visit_unit(),
+            Tok::Scalar(Value::Bool(b)) => v.visit_bool(b),
+            Tok::Scalar(Value::Number(n)) => v.visit_i64(n),
+            _ => Err(ERR),
+        }
+    }
+    fn deserialize_option<V: Visitor<'de>>(self, v: V) -> Result<V::Value> {
+        v.visit_some(self)
+    }
+    fn deserialize_newtype_struct<V: Visitor<'de>>(self, _n: &'static str, v: V) -> Result<V::Value> {
+        v.visit_newtype_struct(self)
+    }
+    fn deserialize_struct<V: Visitor<'de>>(self, _n: &'static str, _f: &'static [&'static str], v: V) -> Result<V::Value> {
+        self.deserialize_any(v)
+    }
+    fn deserialize_unit_struct<V: Visitor<'de>>(self, _n: &'static str, v: V) -> Result<V::Value> {
+        self.deserialize_any(v)
+    }
+    fn deserialize_tuple_struct<V: Visitor<'de>>(self, _n: &'static str, _l: usize, _v: V) -> Result<V::Value> {
+        Err(ERR)
+    }
+    fn deserialize_tuple<V: Visitor<'de>>(self, _l: usize, _v: V) -> Result<V::Value> {
+        Err(ERR)
+    }
+    fn deserialize_enum<V: Visitor<'de>>(self, _n: &'static str, _vs: &'static [&'static str], _v: V) -> Result<V::Value> {
+        Err(ERR)
+    }
+    fwd_any! { deserialize_bool deserialize_i8 deserialize_i16 deserialize_i32 deserialize_i64 deserialize_i128 deserialize_u8 deserialize_u16 deserialize_u32 deserialize_u64 deserialize_u128 deserialize_f32 deserialize_f64 deserialize_char deserialize_str deserialize_string deserialize_bytes deserialize_byte_buf deserialize_unit deserialize_seq deserialize_map deserialize_identifier deserialize_ignored_any }
+    fn is_human_readable(&self) -> bool {
+        true
+    }
+}
+impl<'de> MapAccess<'de> for StructAcc {
+    type Error = Error;
+    fn next_key_seed<K: DeserializeSeed<'de>>(&mut self, seed: K) -> Result<Option<K::Value>> {
+        match verif::next() {
+            Tok::Field(name) => seed.deserialize(FieldName(name)).map(Some),
+            Tok::StructEnd => Ok(None),
+            _ => Err(ERR),
+        }
+    }
+    fn next_value_seed<V: DeserializeSeed<'de>>(&mut self, seed: V) -> Result<V::Value> {
+        seed.deserialize(Play)
+    }
+}
+impl<'de> MapAccess<'de> for MapAcc {
+    type Error = Error;
+    fn next_key_seed<K: DeserializeSeed<'de>>(&mut self, seed: K) -> Result<Option<K::Value>> {
+        match verif::next() {
+            Tok::Key(b, l) => seed.deserialize(KeyBytes(b, l)).map(Some),
+            Tok::MapEnd => Ok(None),
+            _ => Err(ERR),
+        }
+    }
+    fn next_value_seed<V: DeserializeSeed<'de>>(&mut self, seed: V) -> Result<V::Value> {
+        seed.deserialize(Play)
+    }
+}
+macro_rules! only_str { ($t:ty, $body:expr) => {
+    impl<'de> de::Deserializer<'de> for $t {
+        type Error = Error;
+        fn deserialize_any<V: Visitor<'de>>(self, v: V) -> Result<V::Value> { let f: fn($t, V) -> Result<V::Value> = $body; f(self, v) }
+        serde::forward_to_deserialize_any! { bool i8 i16 i32 i64 i128 u8 u16 u32 u64 u128 f32 f64 char str string bytes byte_buf option unit unit_struct newtype_struct seq tuple tuple_struct map struct enum identifier ignored_any }
+    }
+} }
+only_str!(FieldName, |s, v| v.visit_borrowed_str(s.0));
+// Map keys come back as one of the static one-letter strings of the bound ("a".."d"): the harness
+// keys are one byte long; anything else is a decoding error. Borrowing a static str keeps the
+// owned-`String` allocation path of `Cow<'static, str>` out of the replay.
+only_str!(KeyBytes, |s, v| {
+    if s.1 != 1 {
+        return Err(ERR);
+    }
+    let i = s.0[0].wrapping_sub(b'a') as usize;
+    if i < 4 { v.visit_str(KEYS[i]) } else { Err(ERR) }
+});
+
+pub fn from_str<'a, T: serde::Deserialize<'a>>(_s: &'a str) -> Result<T> {
+    unsafe {
+        verif::TAPE.pos = 0;
+    }
+    if verif::tape().n == 0 {
+        return Err(ERR);
+    }
+    let r = T::deserialize(Play)?;
+    if verif::peek() != Tok::End {
+        return Err(ERR);
+    }
+    Ok(r)
+}
